@@ -69,6 +69,7 @@ def run_unit_cached(unit, seed, scratch):
     u = vx.load_units()[unit]
     tpl = os.path.join(VERIF, "contracts", u["template"] + ".vrs")
     text, items = vx.expand(tpl, u.get("defines"))
+    vx.check_scope_baseline(items)   # functions added to a covered trait impl: inconclusive (not part of the cached text)
     key = hashlib.sha256(("vx1|%s|%d|" % (unit, seed)).encode() + text.encode()).hexdigest()[:32]
     cp = os.path.join(CACHE, "vx", key + ".json")
     if os.path.exists(cp) and not os.environ.get("VERIF_NOCACHE"):
